@@ -15,6 +15,12 @@ import Sigc.AdaptLemmas
   Known limit (finding F8, `rref_witness`): a `T&&` signal parameter that passes `bind`/`hide` below a forwarding
   adaptor is move-constructed into a `std::tuple<T>`; for `T&&` the identity theorem is proved for chains of
   forwarding call operators only (`rref_forwarders`).
+
+  Unbound member functors (`OExpr.mleaf`, `sigc::mem_fun(&Base::m)` called as `f(obj, args…)`): how
+  `mem_functor::operator()` takes the object is two more rows of `paramKind` — one per static type of the object argument
+  (`Base` itself / a class derived from it), because that is what overload resolution looks at.  Both say "by reference" in
+  the current code, so every identity theorem above covers member-functor targets; `mem_functor_object_identity` states it
+  for the call itself and `mem_functor_byvalue_witness` shows that a by-value row for derived static types breaks it.
 -/
 namespace Sigc.C11
 open Sigc.Adapt
@@ -294,7 +300,7 @@ theorem bound_result_reference (f : FExpr) (c : Bool) (t : Ty) (cell : Nat) (n :
   bindReturn_ref_result f c t cell n
 
 example :
-    let br := FExpr.un (.bindReturn (.ref true .long 100 7)) (.leaf 0 [] none false)
+    let br := FExpr.un (.bindReturn (.ref true .long 100 7)) (.leaf 0 [] none none)
     (callImpl br []).res = .ok (.ref true .long 100 7)
     ∧ (callImpl (.un (.hide none) br) [.num .int 42]).res = .ok (.ref true .long 100 7) := by decide
 
@@ -308,8 +314,74 @@ theorem getter_result_reaches_setter (s g g1 g2 : FExpr) (args : List Val) :
   ⟨callImpl_compose1 s g args, callImpl_compose2 s g1 g2 args⟩
 
 example :
-    (callImpl (.compose2 (.pleaf 2 [.long, .long] none false) (.rleaf 0 [.int] false .long false)
-        (.un (.bindReturn (.ref true .long 100 7)) (.leaf 1 [.int] none false))) [.num .int 3]).log
+    (callImpl (.compose2 (.pleaf 2 [.long, .long] none none) (.rleaf 0 [.int] false .long none)
+        (.un (.bindReturn (.ref true .long 100 7)) (.leaf 1 [.int] none none))) [.num .int 3]).log
       = [⟨0, [.num .int 3]⟩, ⟨1, [.num .int 3]⟩, ⟨2, [.ref true .long 0 3, .ref true .long 100 7]⟩] := by decide
+
+/-- **The object of an unbound member functor.**  `sigc::mem_fun(&Base::m)` called as `f(obj, args…)` — directly or
+    with explicit template arguments from `slot_call::call_it`, whatever the static type of the object argument (`Base`,
+    a class derived from `Base`; `const` for a const method): `mem_functor::operator()` takes the object by reference
+    (rows `memFunctorExact` / `memFunctorDerived` of `paramKind`), so `this` of the method is the passed object itself
+    (every recorded parameter designated `o` — `this` is parameter 0 — is fed from `o`) and no object that existed
+    before the call is copied or moved inside the library (zero copies).  The slot / signal routes and every adaptor
+    chain above the member functor (`bind<0>(…, std::ref(obj))` included) are instances of `ref_identity` /
+    `bound_ref_identity`, whose `OExpr` ranges over `mleaf` targets too. -/
+theorem mem_functor_object_identity (id : Nat) (der cm : Bool) (pks : List PK) (retv ex : Bool) (args : List ARef)
+    (h : Heap) (hlog : logOK h = true) (ha : ∀ a ∈ args, ArgInv h.next a) :
+    let h' := (callO paramKind passKind (.mleaf id der cm pks retv) ex args h).1
+    (∀ r ∈ h'.log, ∀ p ∈ r.params, ∀ o, p.origin = some o → p.src = o)
+    ∧ (∀ o, o < h.next → h'.hops o = h.hops o) := by
+  intro h'
+  have hi : HeapInv h.next h.hops h := ⟨Nat.le_refl _, fun _ _ => rfl, hlog⟩
+  have := callO_inv paramKind paramKind_forwarding passKind (.mleaf id der cm pks retv) ex args h rfl hi ha
+  exact ⟨(logOK_iff _).mp this.log_ok, this.hops_eq⟩
+
+-- the hypotheses are satisfiable: the caller's own objects passed as lvalues
+example : ∀ a ∈ [(⟨0, .lv, some 0⟩ : ARef), ⟨1, .clv, some 1⟩], ArgInv h0.next a := by
+  intro a ha
+  simp only [List.mem_cons, List.mem_nil_iff, or_false] at ha
+  rcases ha with rfl | rfl <;> exact ⟨Or.inl rfl, fun o ho => by simpa using ho⟩
+
+-- mem_fun(&Base::add) with a Derived object: called directly with (d, x) — `this` is d (object 0), d is modified, not
+-- copied; connected to signal<void(Derived&, Obj)> twice: the second call and the emitter see the first one's
+-- modification; bind<0>(mem_fun(&Base::add), std::ref(b)): runs on b (object 100) itself; const Derived / const method
+example :
+    let m : OExpr := .mleaf 0 true false [.val] false
+    let hd := (callO paramKind passKind m false [⟨0, .lv, some 0⟩, ⟨1, .lv, some 1⟩] h0).1
+    let hs := (emitVoidO paramKind passKind [.lref, .val] [0, 1] [⟨false, false, m⟩, ⟨false, false, m⟩] h0).1
+    let hb := (emitVoidO paramKind passKind [.val] [1] [⟨false, false, .un (.bind (some 0) [.byRef 100]) m⟩] h0).1
+    let hc := (emitValueO paramKind passKind [.cref] [0] [⟨false, false, .mleaf 2 true true [] true⟩] h0)
+    logOK h0 = true
+    ∧ hd.log = [⟨0, [⟨some 0, 0, 7⟩, ⟨some 1, 1, 5⟩]⟩] ∧ hd.val 0 = 107 ∧ hd.copies 0 = 0 ∧ hd.copies 1 = 1
+    ∧ hs.log = [⟨0, [⟨some 0, 0, 7⟩, ⟨some 1, 1, 5⟩]⟩, ⟨0, [⟨some 0, 0, 107⟩, ⟨some 1, 1, 5⟩]⟩] ∧ hs.val 0 = 207
+    ∧ hs.copies 0 = 0 ∧ hs.hops 0 = 0
+    ∧ hb.log = [⟨0, [⟨some 100, 100, 40⟩, ⟨some 1, 1, 5⟩]⟩] ∧ hb.val 100 = 140 ∧ hb.copies 100 = 0
+    ∧ hc.1.log = [⟨2, [⟨some 0, 0, 7⟩]⟩] ∧ hc.2 = .ok (some 3007) ∧ hc.1.val 0 = 7 ∧ hc.1.copies 0 = 0 := by
+  decide
+
+/-- the parameter kinds of a code in which `mem_functor` has a second, templated call operator
+    `operator()(T_obj_ptr obj, …)` taking the object *by value*: overload resolution prefers it (exact match) over the
+    `obj_type_with_modifier&` overload (derived-to-base conversion) exactly when the argument's static type is a class
+    derived from the method's class -/
+def tableMemByValue : AdaptorKind → ParamKind
+  | .memFunctorDerived => .byValue
+  | k => paramKind k
+
+/-- **By-value witness.**  With `byValue` in the `memFunctorDerived` row `mem_functor_object_identity` is false:
+    `signal<void(Derived&, Obj)>` connected to `mem_fun(&Base::add)` twice — the method runs on a copy (objects 1000,
+    1002) of the emitter's object 0, which is copied inside the library on every call and keeps its value, so neither
+    the second slot nor the emitter sees the modification; likewise for an object bound with `std::ref`.  An object of
+    the exact class is not affected, which is why only derived static types expose it. -/
+theorem mem_functor_byvalue_witness :
+    let m (der : Bool) : OExpr := .mleaf 0 der false [.val] false
+    let hs := (emitVoidO tableMemByValue passKind [.lref, .val] [0, 1] [⟨false, false, m true⟩, ⟨false, false, m true⟩] h0).1
+    let hb := (emitVoidO tableMemByValue passKind [.val] [1] [⟨false, false, .un (.bind (some 0) [.byRef 100]) (m true)⟩] h0).1
+    let he := (emitVoidO tableMemByValue passKind [.lref, .val] [0, 1] [⟨false, false, m false⟩] h0).1
+    hs.log = [⟨0, [⟨some 0, 1000, 7⟩, ⟨some 1, 1, 5⟩]⟩, ⟨0, [⟨some 0, 1002, 7⟩, ⟨some 1, 1, 5⟩]⟩] ∧ logOK hs = false
+    ∧ hs.val 0 = 7 ∧ hs.copies 0 = 2 ∧ hs.hops 0 = 2
+    ∧ hb.log = [⟨0, [⟨some 100, 1000, 40⟩, ⟨some 1, 1, 5⟩]⟩] ∧ logOK hb = false ∧ hb.val 100 = 40 ∧ hb.hops 100 = 1
+    ∧ he.log = [⟨0, [⟨some 0, 0, 7⟩, ⟨some 1, 1, 5⟩]⟩] ∧ logOK he = true ∧ he.val 0 = 107 ∧ he.hops 0 = 0
+    ∧ logOK (emitVoidO paramKind passKind [.lref, .val] [0, 1] [⟨false, false, m true⟩, ⟨false, false, m true⟩] h0).1 = true := by
+  decide
 
 end Sigc.C11
